@@ -54,3 +54,27 @@ add("C15", "exploration",
     "Enumeration of the documented identifier language through the real decoders: all 3600 product ids, all dates 2014-2049 as scene ids, all scan suffixes, all (polarisation, scan number) group names, file-name shapes (quick: 20k sampled, thorough: all ~3.8e5), compared with frozen code tables and a hand-written recogniser; single-edit near-misses that the recogniser rejects must raise ValueError; some ids go end to end through open_alos2.",
     "Two-digit years resolved relative to 2026; mission name fixed to ALOS2. Tables in vf/idlang.py are frozen documentation.",
     "reference-model monitor over an enumerated finite language + near-miss rejection oracle", "DESIGN.md §4 C15")
+add("C03", "exploration",
+    "Reference-model monitor: for seeded image files of both record types with every prefix field of every line random at once, the complete image group (every per-line coordinate with value, unit, dtype, order; per-file constants as attributes; header-derived attributes present exactly when the descriptor field is non-blank, all 16 blank/filled combinations plus blank interleaving) is compared with the expectation computed from the file bytes and the frozen leaf spec; nothing missing, nothing extra.",
+    "vf/spec/leaves_image.json + layout.json are the documented layout (frozen from the repaired pinned tree by sentinel probing, reviewed); integer scale factors within 2 ulp.",
+    "reference-model monitor (independent decoder + frozen leaf spec), complete both ways", "DESIGN.md §4 C03")
+add("C04", "exploration",
+    "Reference-model monitor over every node, variable and attribute under /metadata: seeded leader files with every field random at once in many admissible ASCII spellings, every enumerated code, 1-136 attitude points, 1-16 channels, map projection absent / present with each designator; expectation from bytes + frozen leaf spec with decimal/fraction arithmetic; completeness both ways. Attitude time values are judged by C17.",
+    "vf/spec/leaves_leader.json (262 leaf entries over 60 nodes) is the documented layout; unscaled ASCII floats must be exactly the correctly rounded double, scaled ones within 4 ulp.",
+    "reference-model monitor (independent decoder + frozen leaf spec), complete both ways", "DESIGN.md §4 C04")
+add("C05", "exploration",
+    "Exhaustive sweeps of every count and length declared inside the files (attitude points 1..136 and tight record lengths, channels 1..16, map projection 0/1, facility record lengths 66..4266, file pointers 0..16, trailer images 0..7 x sample widths) with random full-width content everywhere, decided by the C04/C16 oracles on the records that follow and by comparing trailer images with their own bytes.",
+    "Only admissible counts/lengths; the trailer reader is driven directly (open_alos2 never calls it).",
+    "exhaustive enumeration of small domains under a reference-model monitor", "DESIGN.md §4 C05")
+add("C16", "exploration",
+    "Reference-model monitor on the root attributes: seeded volume directory files with printable content of every width and placement in every text field, all creation timestamp classes, 0..16 file-pointer records with random content; every root attribute (names and values, nothing extra) is compared with the bytes of the volume descriptor and text record, the creation date-time as an instant.",
+    "Contents begin and end with a non-blank character; attribute-name table is frozen documentation (vf/speclib.py).",
+    "reference-model monitor at the DataTree root", "DESIGN.md §4 C16")
+add("C17", "exploration",
+    "One instant per case is written into every time-bearing field of a product at once (image ms / us stamps, attitude points, platform-position first point, scene-centre time, volume creation time) over boundary days, leap years and first/last milliseconds (thorough: every day of three years); each time leaf must equal the instant decoded from the bytes under the one calendar rule and fields given the same instant must agree. The attitude points' +1 day is an open known finding with a mechanism classifier.",
+    "Decimal seconds have at most 6 decimals; the attitude year is the platform-position year as the property states.",
+    "reference-model + relational (same instant => same datetime) monitor", "DESIGN.md §4 C17")
+add("C20", "exploration",
+    "(a) every nullable field of leader, volume directory and image descriptor is overwritten with blanks in the file bytes (alone, in random subsets, all at once) and the complete C03/C04/C16 expectation is recomputed and compared; (b) each product is written with blank padding and with two random fills of every spare/blank/reserved area and record tail and the three trees' canonical leaf maps must be identical; (c) thorough: byte-by-byte influence map of a leader (changed leaves must belong to the field owning the byte).",
+    "Nullable = ASCII numeric/text fields that are not counts, lengths, codes, flag columns or date-time texts; padding content follows the area's character class.",
+    "reference-model monitor under blanking + metamorphic canon equality under re-padding + influence map", "DESIGN.md §4 C20")
